@@ -9,6 +9,7 @@ import (
 	"fmt"
 	"os"
 	"path/filepath"
+	"regexp"
 	"strconv"
 	"strings"
 	"time"
@@ -224,6 +225,14 @@ func checkReported(run *tbRun, prog *SX) string {
 		if underscore(e.Msg()) != msg {
 			return fmt.Sprintf("reported buffer fails with %q, message names %q", underscore(e.Msg()), msg)
 		}
+		// the test case that was *presented* (the final replay, on a T that logs) is that failing test case: it drew the same
+		// values and it failed, too
+		if len(in2.invs) > 0 && maskAddrs(strings.Join(in2.invs[0].draws, "|")) != maskAddrs(strings.Join(inv.draws, "|")) {
+			return fmt.Sprintf("the presented replay of [%s] drew %v; the same words on a T that does not log draw %v (and fail with %s)", joinU64(buf), inv.draws, in2.invs[0].draws, showErr(e))
+		}
+		if len(in2.invs) > 0 && in2.invs[0].signalled && !inv.signalled {
+			return fmt.Sprintf("the presented replay of [%s] does not fail; the same words on a T that does not log fail with %s", joinU64(buf), showErr(e))
+		}
 		logged := run.loggedDraws()
 		if strings.Join(logged, "|") != strings.Join(inv.draws, "|") {
 			return fmt.Sprintf("logged draws %v differ from received draws %v", logged, inv.draws)
@@ -240,6 +249,11 @@ func checkReported(run *tbRun, prog *SX) string {
 	}
 	return ""
 }
+
+// pointer values print as addresses, which differ from run to run
+var addrRE = regexp.MustCompile(`0x[0-9a-f]{6,}`)
+
+func maskAddrs(s string) string { return addrRE.ReplaceAllString(s, "0xADDR") }
 
 // D2 shape of a recording: a finished, kept "action" group that encloses an unfinished group and
 // a discarded group (an action attempt treated as skipped although it consumed bits of a
@@ -407,6 +421,10 @@ func init() {
 			"((draw a (i 0 9)) (draw v (custom (emit 5))))",
 			"((draw b (bool)) (draw a (i 0 99)) (if (istrue b) (draw v (custom (emit 7)))) (if (ge a 90) (fatal 1)))",
 			"((draw a (slice (i 0 9) 0 3)) (if (lenge a 2) (draw v (deferred (custom (emit 1))))))",
+			// a state machine with an action that draws and then skips (its step is rejected, not retried): the runs Check bases
+			// its verdict on do not log, the presented replay does — both must read the bits the same way
+			"((repeat (act (emit 100) (draw x (i 0 9)) (if (ge x 5) (skip)) (emit 200)) (act (emit 101) (draw y (i 0 100)) (if (ge y 90) (fatal 2)) (emit 201))))",
+			"((draw n (i 0 3)) (repeat (check (emit 90)) (act (emit 100) (draw x (bool)) (if (istrue x) (skip)) (emit 200)) (act (emit 101) (draw y (u 0 255)) (if (ge y 200) (error 3)) (emit 201))))",
 		}
 		for i := 0; i < 60*scale; i++ {
 			var prog *SX
@@ -417,7 +435,16 @@ func init() {
 			if i >= 2*len(sameSite) && i%8 == 7 {
 				pick = 6
 			}
+			if i >= 2*len(sameSite) && i%4 == 1 {
+				pick = 7
+			}
 			switch pick {
+			case 7:
+				// state machines whose actions draw and then skip now and then, with a failure some steps in: the presented
+				// replay (a logging T) must read the bits as the runs that found and minimized the failure (which do not log)
+				th := 3 + r.intn(6)
+				prog = mustSX(fmt.Sprintf("((repeat (act (emit 100) (draw x (i 0 9)) (if (ge x %d) (skip)) (emit 200)) (act (emit 101) (draw y (i 0 100)) (if (ge y %d) (fatal 2)) (emit 201)) (act (emit 102) (draw z (bool)) (if (istrue z) (skip)) (emit 202))))", th, 70+r.intn(25)))
+				m.tag("draw-then-skip-actions")
 			case 6:
 				// the body needs a live context, some cleanups ask for the context too (the `*T` of the generation loop is
 				// reused: what a cleanup leaves behind on it must not reach the next test case); most cases pass or skip
